@@ -362,10 +362,52 @@ def split_arrow(f):
     return None
 
 
+TABLE_HEADERS = {"basic": ["STATISTIC", "NUMBER"], "team": ["ENTITYNAME", "REVSCOUNT", "AUTHORCOUNT"], "top": ["AUTHOR", "COMMITCOUNT", "LINECOUNT"]}
+
+
+def from_tables(o):
+    """the tables `coca git -b -t -o` printed, as the summaries they show; a summary whose table is not there (under its own
+    header, with rows of its own width) is None"""
+    res = {"team": None, "top": None, "basic": None}
+    for t in o.get("tables", []):
+        for k, hdr in TABLE_HEADERS.items():
+            if t["header"] == hdr and res[k] is None and all(len(r) == len(hdr) for r in t["rows"]):
+                try:
+                    if k == "team":
+                        res[k] = [{"EntityName": r[0], "RevsCount": int(r[1]), "AuthorCount": int(r[2])} for r in t["rows"]]
+                    elif k == "top":
+                        res[k] = [{"Name": r[0], "CommitCount": int(r[1]), "LineCount": int(r[2])} for r in t["rows"]]
+                    else:
+                        d = {r[0]: int(r[1]) for r in t["rows"]}
+                        res[k] = {x: d[x] for x in ("Commits", "Entities", "Changes", "Authors")} if set(d) == {"Commits", "Entities", "Changes", "Authors"} else None
+                except (ValueError, KeyError):
+                    res[k] = None
+    return res
+
+
+def augment_c15(case, impl):
+    """summaryrepo: the model summarises the commits the real command parsed (its commits.json)"""
+    if case.get("op") == "summaryrepo" and impl and isinstance(impl.get("out"), dict) and "commits" in impl["out"]:
+        c = dict(case)
+        c["commits"] = impl["out"]["commits"]
+        return c
+    return case
+
+
 def oracle_c15(case, out, raw):
     if out is None or "panic" in out:
         return [("panic", "git summary panicked: %s" % (raw or {}).get("panic"))]
     ds = []
+    if case["op"] == "summaryrepo":
+        if "reportUnreadable" in out:
+            return [("git-report-unreadable", out["reportUnreadable"])]
+        t = from_tables(out)
+        missing = [k for k in ("basic", "team", "top") if t[k] is None]
+        if missing:
+            return [("git-tables-garbled", "`coca git -b -t -o` does not print the %s summary as a table of its own (headers printed: %s)" % (
+                "/".join(missing), [x["header"] for x in out.get("tables", [])]))]
+        case = {"op": "summary", "commits": out["commits"]}
+        out = dict(t)
     commits = case["commits"]
     files = {}
     for c in commits:
@@ -404,6 +446,8 @@ def oracle_c15(case, out, raw):
     paths = set(ch["File"] for c in commits for ch in c.get("Changes") or [])
     if (b["Commits"], b["Authors"], b["Entities"]) != (len(commits), len(set(c["Author"] for c in commits)), len(paths)):
         ds.append(("basic-summary-wrong", "got %s" % b))
+    if "age" not in out:
+        return ds          # (the tables of the command: the age table shows months since today, the changelog is not a table)
     exp_age = sorted((n, v["date"]) for n, v in files.items())
     got_age = [(a["EntityName"], a["Date"]) for a in out["age"]]
     if sorted(got_age) != exp_age:
@@ -426,12 +470,18 @@ def oracle_c15(case, out, raw):
 
 def view_c15(o):
     """ties of the unstable sorts: compare team/top/age rows sorted by (key desc/asc, rest)"""
+    if isinstance(o, dict) and "tables" in o:
+        t = from_tables(o)
+        if any(v is None for v in t.values()):
+            return {"tables": "garbled"}
+        o = t
     if not isinstance(o, dict) or "team" not in o:
         return o
     r = dict(o)
     r["team"] = sorted(o["team"], key=lambda t: (-t["RevsCount"], t["EntityName"], t["AuthorCount"]))
     r["top"] = sorted(o["top"], key=lambda t: (-t["CommitCount"], t["Name"]))
-    r["age"] = sorted(o["age"], key=lambda t: (t["Date"], t["EntityName"]))
+    if "age" in o:
+        r["age"] = sorted(o["age"], key=lambda t: (t["Date"], t["EntityName"]))
     return r
 
 
@@ -439,6 +489,11 @@ def view_det_c15(o):
     """for run-to-run comparison (C08): the promised ORDER is kept; only rows with a tied sort key are compared as a set
     (consecutive rows with the same key form one group, sorted inside) — an output that is not sorted by its key, or whose
     order depends on map iteration, then differs between runs"""
+    if isinstance(o, dict) and "tables" in o:
+        t = from_tables(o)
+        if any(v is None for v in t.values()):
+            return {"tables": "garbled"}
+        o = t
     if not isinstance(o, dict) or "team" not in o:
         return o
 
@@ -454,13 +509,20 @@ def view_det_c15(o):
     r = dict(o)
     r["team"] = groups(o["team"], lambda t: t["RevsCount"])
     r["top"] = groups(o["top"], lambda t: t["CommitCount"])
-    r["age"] = groups(o["age"], lambda t: t["Date"])
+    if "age" in o:
+        r["age"] = groups(o["age"], lambda t: t["Date"])
     return r
 
 
 def gen_c15(rng, tier):
     nsh, per = (16, 90) if tier == "quick" else (32, 1500)
-    return [[{"op": "summary", "commits": rand_commits(rng)} for _ in range(per)] for _ in range(nsh)]
+    shards = [[{"op": "summary", "commits": rand_commits(rng)} for _ in range(per)] for _ in range(nsh)]
+    # the tables of the real command: repositories built with git, `coca git -b -t -o` run in them in a fresh process; the
+    # summaries it prints are judged against the commits it parsed (its commits.json)
+    for sh in shards:
+        for _ in range(3 if tier == "quick" else 20):
+            sh.append({"op": "summaryrepo", "cli": True, "history": rand_history(rng, adversarial=False, n=rng.choice([1, 3, 6, 8]), real=True)})
+    return shards
 
 
 # ---------------------------------------------------------------------------------------------
@@ -490,11 +552,13 @@ def make(prop):
     else:
         m.gen = gen_c15
         m.oracle = oracle_c15
+        m.augment = augment_c15
         m.view = view_c15
         m.view_det = view_det_c15
         m.nontrivial = lambda c, mo: bool(mo.get("team")) or bool(mo.get("top"))
         m.RULE = ("random commit lists (0-12 commits, 4 authors, creates/modifies/deletes/renames in both notations incl. chains and delete-then-recreate, "
-                  "conventional-commit and free subjects, tied sort keys); oracle = independent file-identity semantics; non-trivial = non-empty summary")
+                  "conventional-commit and free subjects, tied sort keys); oracle = independent file-identity semantics; plus real repositories built with git in which "
+                  "the REAL `coca git -b -t -o` runs in a fresh process: the tables it prints are judged against the commits it parsed; non-trivial = non-empty summary")
         m.ASSUMPTIONS = ["a rename's old name exists and its new name does not (as git guarantees)", "dates are valid ISO dates (time.Parse)"]
         m.TRUSTED = ["Go sort.Slice (ties canonicalised)", "Go regexp"]
     return m
